@@ -233,7 +233,11 @@ def fix_time_units_for_ems(
         variable = dataset.variables[str(variable_name)]
 
         units = cast(str, variable.getncattr('units'))
-        calendar = cast(str, variable.getncattr('calendar') or DEFAULT_CALENDAR)
+        # The calendar attribute is optional
+        if 'calendar' in variable.ncattrs():
+            calendar = cast(str, variable.getncattr('calendar'))
+        else:
+            calendar = DEFAULT_CALENDAR
 
         variable.setncattr('units', format_time_units_for_ems(units, calendar))
 
